@@ -159,8 +159,10 @@ def run (j : Json) : Except String Json := do
   let agree := agreeAll outs env impl
   let holds := checkC01h env heap tbl0 events impl
   let modelHolds := checkC01h env heap tbl0 events (outs.map (fun o => (observe2 env o, o.log)))
-  if !modelHolds then
-    throw "the model's own observation fails the checker (c01_model_checks says it cannot)"
+  -- `c01_model_checks`: with well-formed facts the model's own observations satisfy the checker;
+  -- if they do not, model, checker or theorem is broken — an error, never a silent pass
+  if WF2 env && factsOK && !modelHolds then
+    throw "the model's own observation fails the checker although the facts are well-formed (c01_model_checks says it cannot)"
   if impl.length != outs.length then
     throw "number of observations differs from the number of glom events"
   let hasReg := events.any (fun e => match e with | .register .. => true | _ => false)
